@@ -470,6 +470,17 @@ func solve(o *Obligation, dir string, timeoutS, seed int, wantModel bool, only [
 	if res.Answer == "unsat" || res.Answer == "sat" || o.ExpectSat {
 		return res
 	}
+	if strings.TrimSpace(o.Cond) == "false" && res.Hint != "" {
+		// The condition was decided false while elaborating (two different literals compared, a select item that
+		// is not the expected column, ...): the obligation holds only if its path is dead. The solvers did not
+		// prove the path dead, and it is satisfiable once the quantified hypotheses are left out: refuted.
+		res.Answer, res.Solver = "sat", "z3-new/noquant (condition is literally false)"
+		res.Raw = res.HintRaw
+		if wantModel {
+			res.Model = parseModel(res.Raw)
+		}
+		return res
+	}
 	parts := splitGoal(o.Cond, 12)
 	if len(parts) < 2 {
 		return res
